@@ -56,9 +56,11 @@ SomeVoxelInBounds(P2, R, shape, tshape) ==
   \E k \in (0..(shape[1]-1)) \X (0..(shape[2]-1)) \X (0..(shape[3]-1)) : InBounds2(C2(P2, R, shape, k), tshape)
 
 (* ------------------------------------------------------------------ I layer *)
-(* prepare_affine, one axis: x0 = int(c - s/2 - order); x1 = int(x0 + s + 2*order + 1) *)
-WinLo(p2, s, order) == Trunc2(p2 - s - 2 * order)
-WinHi(p2, s, order) == WinLo(p2, s, order) + s + 2 * order + 1
+(* prepare_affine, one axis: margin = max(order, 1); x0 = int(c - s/2 - margin); x1 = int(x0 + s + 2*margin + 1)
+   (the margin was `order` itself until the order-0 repair, see SamplingQ.tla) *)
+Margin(order) == IF order = 0 THEN 1 ELSE order
+WinLo(p2, s, order) == Trunc2(p2 - s - 2 * Margin(order))
+WinHi(p2, s, order) == WinLo(p2, s, order) + s + 2 * Margin(order) + 1
 (* make_slice_and_pad outcome per axis: "raise" or [lo, hi, padlo, padhi] *)
 SliceAndPad(z0, z1, size) ==
   IF z0 >= size \/ z1 <= 0 THEN [raise |-> TRUE, lo |-> 0, hi |-> 0, padlo |-> 0, padhi |-> 0]
